@@ -28,11 +28,13 @@ def taglink(o: 'model.Documentable', page_url: str,
         always generate full urls that includes the filename.
     @param label: The label to use for the link
     """
-    if not o.isVisible:
-        o.system.msg("html", "don't link to %s"%o.fullName())
-
     if label is None:
         label = o.fullName()
+
+    if not o.isVisible:
+        # A hidden object has no page and no anchor: show the label without a link.
+        o.system.msg("html", "don't link to %s"%o.fullName())
+        return tags.transparent(label)
 
     url = o.url
     if page_url and url.startswith(page_url + '#'):
